@@ -101,7 +101,7 @@ func init() {
 			if th {
 				chunks = ints(1, 2)
 			}
-			for fault := 1; fault <= 7; fault++ {
+			for fault := 1; fault <= 8; fault++ {
 				for _, j := range clientJobs("VH_C08_fault", th, chunks, false, map[string]int{"fault": fault}) {
 					if fault == 6 && j.Params["mode"] == 2 {
 						continue // the serial client sets no write deadline
@@ -117,7 +117,7 @@ func init() {
 			return js
 		},
 		Bounds: map[string]string{
-			"quick":    "10 functions x 3 clients x reply sizes {min,mid,max} x fault in {stall, EOF, I/O error, oversize, write error, write-deadline error, cancel} x prefix length case-split over {0..12, E-1, E, E+1, L-3..L-1} delivered in one read; serial flush failure symbolic; preconditions: nil request, unconnected client, context cancelled before the call",
+			"quick":    "10 functions x 3 clients x reply sizes {min,mid,max} x fault in {stall, EOF, I/O error, oversize (max+1 bytes or a full buffer), write error, write-deadline error, caller's context cancelled, caller's context deadline expired} x prefix length case-split over {0..12, E-1, E, E+1, L-3..L-1} delivered in one read; serial flush failure symbolic; preconditions: nil request, unconnected client, context cancelled before the call",
 			"thorough": "prefix delivered in up to 2 reads with optional empty timed-out reads; more reply sizes",
 		},
 		Outside:     []string{"wall-clock bound: decided relative to the stated timer model (the timer channel becomes ready when the transport lets time pass; a read returns by its deadline)", "faults after more reads than the bound"},
